@@ -15,6 +15,7 @@ type RenameObject struct {
 
 func (pass *RenameObject) Process(schemas []*ast.Schema) ([]*ast.Schema, error) {
 	// the new name takes the place of no other object: objects are kept under their name
+	targetFound := false
 	for _, schema := range schemas {
 		if schema.Package != pass.From.Package {
 			continue
@@ -37,6 +38,14 @@ func (pass *RenameObject) Process(schemas []*ast.Schema) ([]*ast.Schema, error) 
 		if len(renamed) == 1 && taken {
 			return nil, fmt.Errorf("rename_object: %s can not be renamed to '%s': an object of that name exists", pass.From, pass.To)
 		}
+
+		targetFound = targetFound || len(renamed) == 1
+	}
+
+	// nothing to rename: the references to an object that is not among the schemas (a package
+	// that was not loaded) keep designating it under the name it has there
+	if !targetFound {
+		return schemas, nil
 	}
 
 	visitor := &Visitor{
